@@ -16,7 +16,7 @@ RULE = ('configurations = operator {fifo_stream(capacity), parmap thread/process
         'size 1-8 x speed profile {slow consumer, slow workers, slow source, all fast, bursty} x length {50..2000, unbounded count() '
         'closed after k}; the invariant pulled-received <= bound and running <= concurrency is evaluated under one lock at every pull / '
         'call-entry event, in the thread causing it; non-trivial = the run reached gap >= bound-1 (extreme state approached); '
-        'distinct = distinct (operator, size, profile, length, seed)')
+        'distinct = distinct (operator, size, profile, length, seed); async-stream twins (AsyncStream.parmap thread/async-func, AsyncStream.buffer); a long-stall profile (consumer silent for 2.25 s, 1.12 s, 0.13 s)')
 ASSUMPTIONS = ['"handed to the consumer" is counted by the consuming thread right after the generator yields, before it asks for the next element',
                'for process executors the number of running calls is computed from (start, end) CLOCK_MONOTONIC intervals reported by the children']
 CASE_TIMEOUT = 120
